@@ -61,8 +61,7 @@ func (d *slidingWindowDetector) Check(seq uint64) (func() bool, bool) {
 			d.latestSeq = seq
 			latest = true
 		}
-		diff := (d.latestSeq - seq) % d.maxSeq
-		d.mask.SetBit(uint(diff))
+		d.mask.SetBit(uint(d.latestSeq - seq))
 
 		return latest
 	}, true
